@@ -113,7 +113,7 @@ def sharing_keys(repo, col, R):
         if kind_ not in known:
             continue
         for s_ in any_store:
-            if not all(idx.guard_truth(g, kp, kind_) is not False for g in s_.guards) or any(idx.guard_truth(g, kp, kind_) is None for g in s_.guards if False):
+            if not all(idx.guard_truth(g, kp, kind_) is not False for g in s_.guards):
                 continue
             if not any(idx.guard_truth(g, kp, kind_) is True for g in s_.guards):
                 continue
